@@ -12,7 +12,7 @@ ASSUME_COMMON = ["lowercase/uppercase meaning = this toolchain's str::to_lowerca
 
 def ctor_decls(tier, seed):
     return (corpus_ctor.build(tier, seed) + corpus_extra.build_perm(tier, seed) + corpus_extra.build_message(tier, seed)
-            + corpus_extra.build_finite(tier, seed) + corpus_extra.build_defaults(tier, seed) + corpus_serde.build(tier, seed) + corpus_arb.build(tier, seed)
+            + corpus_extra.build_finite(tier, seed) + corpus_extra.build_defaults(tier, seed) + corpus_extra.build_unchecked(tier, seed) + corpus_serde.build(tier, seed) + corpus_arb.build(tier, seed)
             + corpus_random.build(tier, seed))
 
 
@@ -184,6 +184,68 @@ def check_c11(tier, seed):
                      ["Display->FromStr is conditioned on the inner type's own Display/FromStr round trip (skips counted in guards)"])
 
 
+def view_signature_verdicts(res, tier):
+    """Type-level side of C13: the views of a lifetime- / type-parameterised newtype have exactly the types the inner value's views have
+    (items handed out by `&t` live as long as the stored references, not as long as the borrow of the newtype). Each program must compile;
+    each has a twin asking for strictly more than the inner type gives, which must not."""
+    decls = {
+        "names": ("#[nutype(validate(predicate = |v| !v.is_empty()), derive(Debug, Clone, PartialEq, AsRef, Deref, Borrow, Into, TryFrom, IntoIterator))]\npub struct W<'a>(Vec<&'a str>);", "W<'a>", "Vec<&'a str>", "&'a str"),
+        "slots": ("#[nutype(derive(Debug, AsRef, Deref, Borrow, Into, From, IntoIterator))]\npub struct W<'a>(Vec<::core::cell::Cell<&'a str>>);", "W<'a>", "Vec<::core::cell::Cell<&'a str>>", "::core::cell::Cell<&'a str>"),
+        "cow": ("#[nutype(sanitize(with = |c| c), derive(Debug, Clone, PartialEq, AsRef, Deref, Borrow, Into, From))]\npub struct W<'a>(::std::borrow::Cow<'a, str>);", "W<'a>", "::std::borrow::Cow<'a, str>", None),
+        "gen": ("#[nutype(derive(Debug, Clone, PartialEq, AsRef, Deref, Borrow, Into, From, IntoIterator))]\npub struct W<'a, T: Clone>(Vec<&'a T>);", "W<'a, T>", "Vec<&'a T>", "&'a T"),
+    }
+    cases = []
+    n = 0
+    for key, (decl, ty, inner, item) in decls.items():
+        g = "<'x, 'a, T: Clone>" if key == "gen" else "<'x, 'a>"
+        progs = [
+            ("AsRef", "pub fn f%s(t: &'x %s) -> &'x %s { ::core::convert::AsRef::as_ref(t) }" % (g, ty, inner), "pub fn f%s(t: &'x %s) -> &'a %s { ::core::convert::AsRef::as_ref(t) }" % (g, ty, inner)),
+            ("Deref", "pub fn f%s(t: &'x %s) -> &'x %s { &**t }" % (g, ty, inner), "pub fn f%s(t: &'x %s) -> &'a %s { &**t }" % (g, ty, inner)),
+            ("Borrow", "pub fn f%s(t: &'x %s) -> &'x %s { ::core::borrow::Borrow::borrow(t) }" % (g, ty, inner), "pub fn f%s(t: &'x %s) -> &'a %s { ::core::borrow::Borrow::borrow(t) }" % (g, ty, inner)),
+            ("Into", "pub fn f%s(t: %s, _x: &'x ()) -> %s { t.into() }" % (g, ty, inner), "pub fn f%s(t: %s, _x: &'x ()) -> %s { t.into() }" % (g, ty, inner.replace("'a", "'static"))),
+            ("into_inner", "pub fn f%s(t: %s, _x: &'x ()) -> %s { t.into_inner() }" % (g, ty, inner), "pub fn f%s(t: %s, _x: &'x ()) -> %s { t.into_inner() }" % (g, ty, inner.replace("'a", "'static"))),
+        ]
+        if item:
+            progs += [
+                ("IntoIterator(by ref):item-outlives-borrow", "pub fn f%s(t: &'x %s) -> Option<&'x %s> { t.into_iter().next() }" % (g, ty, item), "pub fn f%s(t: &'x %s) -> Option<&'a %s> { t.into_iter().next() }" % (g, ty, item)),
+                ("IntoIterator(by ref):iterator-type", "pub fn f%s(t: &'x %s) -> <&'x %s as ::core::iter::IntoIterator>::IntoIter { t.into_iter() }" % (g, ty, inner),
+                 "pub fn f%s(t: &'x %s) -> <&'a %s as ::core::iter::IntoIterator>::IntoIter { t.into_iter() }" % (g, ty, inner)),
+                ("IntoIterator(by value):iterator-type", "pub fn f%s(t: %s, _x: &'x ()) -> <%s as ::core::iter::IntoIterator>::IntoIter { t.into_iter() }" % (g, ty, inner),
+                 "pub fn f%s(t: %s, _x: &'x ()) -> <%s as ::core::iter::IntoIterator>::IntoIter { t.into_iter() }" % (g, ty, inner.replace("'a", "'static"))),
+            ]
+            if key in ("names", "slots"):
+                deref = "(*n)" if key == "names" else "n.get()"
+                progs.append(("IntoIterator(by ref):stored-reference-escapes-borrow",
+                              "pub fn f<'a>(t: &%s) -> &'a str { let mut best: &'a str = \"\"; for n in t { if %s.len() >= best.len() { best = %s; } } best }" % (ty, deref, deref),
+                              "pub fn f<'a>(t: &%s) -> &'static str { let mut best: &'static str = \"\"; for n in t { if %s.len() >= best.len() { best = %s; } } best }" % (ty, deref, deref)))
+        for (what, good, bad) in progs:
+            n += 1
+            body = "use nutype::nutype;\n%s\n%s\n"
+            cg = verdict.Case("g%03d" % n, body % (decl, good), "MUST_ACCEPT", "view-signature:%s:%s" % (key, what), note=key, group="c13")
+            cb = verdict.Case("b%03d" % n, body % (decl, bad), "MUST_REJECT", "view-signature-overreach:%s:%s" % (key, what), control_of=cg.id, note=key, group="c13")
+            cases += [cg, cb]
+    vc = verdict.VerdictCrate("c13v-%s" % tier, cratebuild.ALL_FEATURES, extra_deps=FULL_DEPS, nshards=4)
+    try:
+        out, info = verdict.run_verdicts(vc, cases, log=log)
+    except Inconclusive as e:
+        res.inconclusive.append(str(e))
+        return
+    judged = 0
+    for c in cases:
+        if c.expect != "MUST_ACCEPT":
+            continue
+        og, ob = out[c.id], out["b" + c.id[1:]]
+        res.evaluations += 2
+        if ob["verdict"] == "accepted":
+            res.inconclusive.append("negative twin of %s compiles: the program does not discriminate" % c.rule)
+            continue
+        judged += 1
+        res.classes.add(c.rule)
+        if og["verdict"] != "accepted":
+            res.violations.append(verdict_witness(res, c, "rejected: %s" % json.dumps(og["errors"])[:500], "view-type-differs-from-inner:" + c.rule.split(":", 2)[2]))
+    res.guard("view_signature_programs_judged", judged, 25)
+
+
 def check_c13(tier, seed):
     def guards(res, reports):
         seen = set()
@@ -201,11 +263,15 @@ def check_c13(tier, seed):
         res.guard("IntoIterator[other]", 1 if ("other", "IntoIterator") in seen else 0, 1)
         res.guard("HashMap-lookup-by-borrowed", sum(1 for (f, c) in seen if c == "HashMap-lookup-by-borrowed"), 2)
         res.guard("pairs_equal_only_after_sanitisation", sum_guard(reports, "pairs_equal_only_after_sanitisation"), 50)
+        view_signature_verdicts(res, tier)
+        res.guard("unchecked_values_viewed", sum_guard(reports, "unchecked_values_viewed"), 1000)
+        res.guard("unchecked_pairs_compared", sum_guard(reports, "unchecked_pairs_compared"), 1000)
     return ctor_flow("C13", tier, seed,
                      "every declaration of the ctor corpus derives all admissible view and comparison traits; for every obtainable value: AsRef/Deref/Borrow(+Borrow<str>)/"
                      "Into/Clone/Copy/iteration expose the stored value, Display equals the inner Display under 7 format specs, HashMap/BTreeMap lookup through the borrowed "
                      "form finds the key; for pairs (equal, adjacent in the sorted domain, equal only after sanitisation, extremes, random) ==, !=, partial_cmp, <,<=,>,>=, "
-                     "cmp and hash equal the inner value's (hash also equals hash of the borrowed str). A case is a (declaration, view or comparison outcome class) pair.", guards)
+                     "cmp and hash equal the inner value's (hash also equals hash of the borrowed str); declarations with the new_unchecked flag: the same views and ==/partial_cmp/hash "
+                     "comparisons on values stored through `unsafe { new_unchecked }` from the whole raw domain (valid or not, NaN included; Ord::cmp excluded). A case is a (declaration, view or comparison outcome class) pair.", guards)
 
 
 def check_c16(tier, seed):
@@ -615,6 +681,26 @@ def check_c15(tier, seed):
     except Inconclusive as e:
         res.inconclusive.append(str(e))
         return finish(res)
+    # the same crate compiled as the user's `cargo test` would (cfg(test): the unit tests the macro plants inside the hidden module are part of
+    # the no_std crate too); only declarations that passed the plain build are judged again
+    try:
+        alive = [c for c in cases if c.expect == "MUST_ACCEPT" and out[c.id]["verdict"] == "accepted"]
+        out_t, info_t = verdict.run_verdicts(vc, alive, log=log, extra_args=["--tests"])
+    except Inconclusive as e:
+        res.inconclusive.append("cfg(test) build: " + str(e))
+        return finish(res)
+    n_test_ok = 0
+    for c in alive:
+        o = out_t[c.id]
+        res.evaluations += 1
+        if o["verdict"] == "rejected":
+            codes = ",".join(sorted(set(str(e["code"]) for e in o["errors"])))
+            parts = c.rule.split(":")
+            res.violations.append(verdict_witness(res, c, "rejected in the cfg(test) build: %s" % json.dumps(o["errors"])[:500], "not-no_std-clean-under-cfg(test):%s:%s" % (parts[1], codes)))
+        else:
+            n_test_ok += 1
+    res.guard("declarations_clean_under_cfg_test", n_test_ok, 200)
+    res.hist["cfg(test)-build:accepted"] = n_test_ok
     cells = set()
     controls_rejected = 0
     for c in cases:
